@@ -58,6 +58,9 @@ type safeSubmissionState struct {
 
 	results map[string]*submissionResult
 	cancels map[string]context.CancelFunc
+	// done holds one channel per requested Log, closed once the outcome of that
+	// Log's request is final (or once it is known that no request will be made).
+	done map[string]chan struct{}
 }
 
 func newSafeSubmissionState(groups ctpolicy.LogPolicyData) *safeSubmissionState {
@@ -69,6 +72,7 @@ func newSafeSubmissionState(groups ctpolicy.LogPolicyData) *safeSubmissionState 
 	}
 	s.results = make(map[string]*submissionResult)
 	s.cancels = make(map[string]context.CancelFunc)
+	s.done = make(map[string]chan struct{})
 	return &s
 }
 
@@ -82,6 +86,7 @@ func (sub *safeSubmissionState) request(logURL string, cancel context.CancelFunc
 		return false
 	}
 	sub.results[logURL] = &submissionResult{}
+	sub.done[logURL] = make(chan struct{})
 	isAwaited := false
 	for g := range sub.logToGroups[logURL] {
 		if sub.groupNeeds[g] > 0 {
@@ -91,10 +96,30 @@ func (sub *safeSubmissionState) request(logURL string, cancel context.CancelFunc
 	}
 	if !isAwaited {
 		// No groups expecting result from this Log.
+		sub.finish(logURL)
 		return false
 	}
 	sub.cancels[logURL] = cancel
 	return true
+}
+
+// finish marks the outcome of the Log's request as final. Expects sub.mu held.
+func (sub *safeSubmissionState) finish(logURL string) {
+	if ch := sub.done[logURL]; ch != nil {
+		select {
+		case <-ch:
+		default:
+			close(ch)
+		}
+	}
+}
+
+// finished returns a channel that is closed once the outcome of the request
+// to the Log is final. Returns nil if the Log has not been requested.
+func (sub *safeSubmissionState) finished(logURL string) <-chan struct{} {
+	sub.mu.Lock()
+	defer sub.mu.Unlock()
+	return sub.done[logURL]
 }
 
 // setResult processes SCT-result. Writes it down if it is error or awaited-SCT.
@@ -103,6 +128,7 @@ func (sub *safeSubmissionState) request(logURL string, cancel context.CancelFunc
 func (sub *safeSubmissionState) setResult(logURL string, sct *ct.SignedCertificateTimestamp, err error) {
 	sub.mu.Lock()
 	defer sub.mu.Unlock()
+	defer sub.finish(logURL)
 	if sct == nil {
 		sub.results[logURL] = &submissionResult{sct: sct, err: err}
 		return
@@ -221,6 +247,13 @@ func groupRace(ctx context.Context, chain []ct.ASN1Cert, asPreChain bool,
 				return
 			}
 			if firstRequested := state.request(logURL, cancel); !firstRequested {
+				// The Log is handled by another group's race: its outcome
+				// counts for this group too, so report only when it is known.
+				select {
+				case <-subCtx.Done():
+				case <-state.finished(logURL):
+				}
+				cancel()
 				return
 			}
 			sct, err := submitter.SubmitToLog(subCtx, logURL, chain, asPreChain)
@@ -309,6 +342,12 @@ func GetSCTs(ctx context.Context, submitter Submitter, chain []ct.ASN1Cert, asPr
 		case g := <-groupEvents:
 			groupComplete[g.Name] = g.Success
 		}
+	}
+	// All races are over: requests started by one group's race may have
+	// completed another group after that group's own race reported, so the
+	// verdict is taken from the shared state.
+	for _, g := range groups {
+		groupComplete[g.Name] = submissions.groupComplete(g.Name)
 	}
 	return submissions.collectSCTs(), completenessError(groupComplete)
 }
